@@ -78,6 +78,15 @@ let rerr_str = function
   | ErrEOF -> "eof" | ErrInvalidSize -> "invalid_size"
 let rstatus_str = function RNil -> "nil" | REof -> "eof" | RErr e -> rerr_str e
 
+let get_agw_frame t =
+  let port = get_int t in let kind = get_int t in let pid = get_int t in
+  let from = get_bytes t in let to_ = get_bytes t in let data = get_bytes t in
+  { f_port = n_of_int port; f_kind = n_of_int kind; f_pid = n_of_int pid; f_from = from; f_to = to_;
+    f_datalen = n_of_int (List.length data); f_data = data }
+let show_agw_frame f =
+  String.concat ":" [string_of_int (int_of_n f.f_port); string_of_int (int_of_n f.f_kind); string_of_int (int_of_n f.f_pid);
+                     hex_of_bytes f.f_from; hex_of_bytes f.f_to; string_of_int (int_of_n f.f_datalen); hex_of_bytes f.f_data]
+
 (* ---------- operations ---------- *)
 let dispatch (op : string) (t : toks) : string =
   match op with
@@ -272,6 +281,27 @@ let dispatch (op : string) (t : toks) : string =
         let fs' = crash_state fs (calls_of fop) (nat_of_int k) (nat_of_int j) in
         out_list (fun ((f, n), c) -> out_int (int_of_n f) ^ " " ^ out_bytes n ^ " " ^ out_bytes c) fs'
       end
+  | "agwencode" -> out_bytes (agw_encode (get_agw_frame t))
+  | "agwreadall" ->
+      let s = get_bytes t in
+      let (fs, e) = agw_read_frames (nat_of_int (1 + List.length s / 36 + 1)) s in
+      String.concat " " (List.map show_agw_frame fs) ^ " end=" ^
+        (match e with RdEOF -> "eof" | RdShort -> "short" | RdTooLong -> "toolong" | RdFrame _ -> "more")
+  | "agwctor" ->
+      let port = n_of_int (get_int t) in let from = get_bytes t in let to_ = get_bytes t in
+      let digis = get_list t get_bytes in let data = get_bytes t in
+      String.concat " " (List.map (fun f -> out_bytes (agw_encode f))
+        [data_frame port from to_ data; outstanding_frame port from to_; register_frame port from;
+         unregister_frame port from; connect_frame port from to_ digis; disconnect_frame port from to_])
+  | "agwwant" ->
+      let kinds = List.map n_of_int (get_list t get_int) in
+      let port = get_option t (fun t -> n_of_int (get_int t)) in
+      let call = get_option t get_bytes in let to_ = get_option t get_bytes in
+      let f = get_agw_frame t in
+      out_bool (want { fl_kinds = kinds; fl_port = port; fl_call = call; fl_to = to_ } f)
+  | "agwreads" ->
+      let frames = get_list t get_bytes in let sizes = List.map nat_of_int (get_list t get_int) in
+      out_list out_bytes (conn_reads [] frames sizes)
   | _ -> raise Not_found
 
 let () =
